@@ -100,7 +100,7 @@ func histChildren(s histSpec, genSel bool, observed kit.M) kit.L {
 			}
 		}
 		if s.Ann {
-			kit.Ann(o, "ex.io/note", "n")
+			kit.Ann(o, "ex.io/note-"+kit.Name(o), "n") // each attachment has an annotation of its own
 		}
 		if s.Lbl {
 			kit.Labels(o, "tier", "t")
@@ -139,7 +139,9 @@ type histSys struct {
 }
 
 func histWorld(cfg histCfg, s histSpec) *dworld {
-	o := dcOpt{parents: []*sim.Kind{kit.Thing}, attachments: []*sim.Kind{kit.Leaf}}
+	// two resource rules: `others` (listed first, restricted by an annotation selector) and `things` (no selector)
+	o := dcOpt{parents: []*sim.Kind{kit.Other, kit.Thing}, attachments: []*sim.Kind{kit.Leaf},
+		annSelFor: map[string]*v1alpha1.AnnotationSelector{"others": {MatchAnnotations: map[string]string{"decorate": "yes"}}}}
 	if cfg.Method != "<unset>" {
 		o.methods = map[string]v1alpha1.ChildUpdateMethod{"leafs": v1alpha1.ChildUpdateMethod(cfg.Method)}
 	}
@@ -212,6 +214,14 @@ func histSettle(w *dworld, bad func(key, format string, a ...interface{})) bool 
 			// repair it a moment later, so this is checked on the request itself)
 			if r.Kind == kit.Leaf && r.Verb == "update" && r.Applied && kit.JSON(kit.Get(r.Pre, "status")) != kit.JSON(kit.Get(r.Post, "status")) {
 				bad("child-status-changed", "%s changed the child's status from %s to %s", r, kit.JSON(kit.Get(r.Pre, "status")), kit.JSON(kit.Get(r.Post, "status")))
+			}
+			// ... writes no annotation onto an attachment that the hook did not ask for on THAT attachment
+			if r.Kind == kit.Leaf && (r.Verb == "create" || r.Verb == "update") && r.Applied {
+				for k := range kit.Map(r.Post, "metadata", "annotations") {
+					if k != kit.LastApplied && k != "metacontroller.k8s.io/decorator-controller" && k != "ex.io/note-"+r.Name {
+						bad("foreign-annotation-written", "%s carries annotation %q, which the hook never put on this attachment", r, k)
+					}
+				}
 			}
 			// ... and never gives up a child the parent controls (every child here matches the selector)
 			if r.Kind == kit.Leaf && (r.Verb == "update" || r.Verb == "apply") && r.Applied && kit.ControllerUID(r.Pre) == "puid" && kit.ControllerUID(r.Post) != "puid" {
@@ -354,7 +364,7 @@ func (x *histSys) Events() []string {
 	for _, e := range append([]string{}, ev...) {
 		ev = append(ev, e+"!hook-500", e+"!write-500")
 	}
-	if x.full {
+	if true { // (the decorator search explores the annotation / label toggles in the quick tier too)
 		// (a hook that hands back what it observed keeps an annotation / label alive by itself once it is there: with
 		// such a hook the converged state legitimately depends on the past, so these two are only toggled while the
 		// hook does not echo them)
@@ -431,6 +441,19 @@ func (x *histSys) Apply(ev string) {
 			x.bad(key, "not quiescent 10 rounds after the event (last sync error: %v)", histLastErr)
 		}
 		return
+	}
+	// independent of the reference: the target owns exactly the attachments the hook desires for its current spec
+	owned := map[string]bool{}
+	for _, c := range x.w.Sim.All(kit.Leaf) {
+		if kit.ControllerUID(c) == "puid" {
+			owned[kit.Name(c)] = true
+		}
+	}
+	for i := 0; i < 2; i++ {
+		n := []string{"a", "b"}[i]
+		if (i < x.spec.Replicas) != owned[n] {
+			x.bad("owned-set", "attachment %s: owned=%v, desired=%v", n, owned[n], i < x.spec.Replicas)
+		}
 	}
 	want := x.reference(x.spec)
 	if got := histEssence(x.w, x.namesOnly()); got != want {
